@@ -464,7 +464,23 @@ fn gen_sw_affine<P: sw::SWCurveConfig>(g: &mut G<'_>) -> sw::Affine<P> {
         0 => sw::Affine::<P>::identity(),
         1 => P::GENERATOR,
         2 => -P::GENERATOR,
-        3 if g.invalid_ok => sw_random_curve_point::<P>(g),
+        3 if g.invalid_ok => {
+            if g.rng.chance(1, 2) {
+                // from a small fixed pool, with either sign: several invalid elements of one
+                // container can then cancel (P and -P), which defeats aggregate validity checks
+                let k = g.rng.below(3) as u64;
+                let mut r = simkit::Rng::new(0x1badc0de + k);
+                let mut gg = G { rng: &mut r, simple: false, budget: 0, invalid_ok: true, huge: false };
+                let p = sw_random_curve_point::<P>(&mut gg);
+                if g.rng.chance(1, 2) {
+                    p
+                } else {
+                    sw::Affine::<P>::new_unchecked(p.x, -p.y)
+                }
+            } else {
+                sw_random_curve_point::<P>(g)
+            }
+        },
         // curve points whose y has a zero coordinate (x^3+b in the prime subfield): sign-selection ties
         4 | 5 | 6 if g.invalid_ok && P::BaseField::extension_degree() == 2 => match sw_x_with_rhs_in_subfield::<P>(g) {
             Some(x) => {
@@ -780,7 +796,21 @@ fn gen_te_affine<P: te::TECurveConfig>(g: &mut G<'_>) -> te::Affine<P> {
         0 => te::Affine::<P>::zero(),
         1 => P::GENERATOR,
         2 => -P::GENERATOR,
-        3 if g.invalid_ok => te_random_curve_point::<P>(g),
+        3 if g.invalid_ok => {
+            if g.rng.chance(1, 2) {
+                let k = g.rng.below(3) as u64;
+                let mut r = simkit::Rng::new(0x1badc0de + k);
+                let mut gg = G { rng: &mut r, simple: false, budget: 0, invalid_ok: true, huge: false };
+                let p = te_random_curve_point::<P>(&mut gg);
+                if g.rng.chance(1, 2) {
+                    p
+                } else {
+                    te::Affine::<P>::new_unchecked(-p.x, p.y)
+                }
+            } else {
+                te_random_curve_point::<P>(g)
+            }
+        },
         // the point of order two: x = -x tie, outside the subgroup
         4 if g.invalid_ok => te::Affine::<P>::new_unchecked(P::BaseField::ZERO, -P::BaseField::ONE),
         _ => (P::GENERATOR * gen_scalar::<P::ScalarField>(g)).into_affine(),
@@ -966,7 +996,21 @@ impl<E: Pairing> Sem for PairingOutput<E> {
         }
         match g.rng.below(6) {
             0 => PairingOutput::<E>::zero(),
-            1 if g.invalid_ok => PairingOutput(gen_field::<E::TargetField>(g)),
+            1 if g.invalid_ok => {
+                if g.rng.chance(1, 2) {
+                    // a fixed non-member or its inverse (see the note on cancelling elements above)
+                    let k = g.rng.below(2) as u64;
+                    let mut r = simkit::Rng::new(0x1badc0de + k);
+                    let f = E::TargetField::rand(&mut r);
+                    if g.rng.chance(1, 2) {
+                        PairingOutput(f)
+                    } else {
+                        PairingOutput(f.inverse().unwrap_or(f))
+                    }
+                } else {
+                    PairingOutput(gen_field::<E::TargetField>(g))
+                }
+            },
             _ => {
                 let k = gen_scalar::<E::ScalarField>(g);
                 PairingOutput::<E>::generator() * k
